@@ -34,6 +34,9 @@ def generate(r):
     local = {m: m.split(".")[-1] for m in mods}
     deps = {m: [d for d in mods[:i] if r.random() < 0.4 and not m.startswith(d + ".")] for i, m in enumerate(mods)}
     fibers_in_modules = r.random() < 0.45
+    objnames = {m: r.choice(["str", "equals", "cls", "plain"]) for m in mods}
+    # (7 exports are always there)
+    wide = {m: r.choice([249, 248]) for m in mods if r.random() < 0.04}
     files = {}
     bindings = {}
     for i, m in enumerate(mods):
@@ -57,6 +60,11 @@ def generate(r):
         lines.append("export let pub_%s = 0;" % ident[m])
         lines.append("export fn incpub_%s() { pub_%s = pub_%s + 1; pub_%s }" % ((ident[m],) * 4))
         lines.append("export let none_%s = nil;" % ident[m])
+        # an export that carries the name of a method every object has (the module object is an object too)
+        lines.append("export fn %s(v) { '%s/' + v }" % (objnames[m], m))
+        # a module object with exactly as many fields as an instance may have (and one fewer)
+        for filler in range(wide.get(m, 0)):
+            lines.append("export let x%d_%s = %d;" % (filler, ident[m], filler))
         if fibers_in_modules and r.random() < 0.5:
             # (a synchronous channel parks the module's fiber in the blocked state, a buffered one puts it to sleep)
             form = r.choice(["one", "one", "race", "closer"])
@@ -142,6 +150,12 @@ def generate(r):
                     alias, ident[m], alias, ident[m], alias, ident[m], alias, ident[m]))
                 counters[m] += 1
                 expect.append("%d %d %d ['%s']" % (mods.index(m) + 10, counters[m], mods.index(m) + 20, m))
+                if r.random() < 0.5:
+                    main.append("print(%s.%s('a%d'));" % (alias, objnames[m], j))
+                    expect.append("%s/a%d" % (m, j))
+                if m in wide and r.random() < 0.8:
+                    main.append("print(%s.x0_%s + %s.x%d_%s);" % (alias, ident[m], alias, wide[m] - 1, ident[m]))
+                    expect.append(str(wide[m] - 1))
                 if r.random() < 0.6:
                     # every import statement yields its own module object holding the exported values of that moment:
                     # later reassignments inside the module and writes of other importers do not show through it
